@@ -210,7 +210,7 @@ LAYOUT_DEFS = 'Jobs == ndJsonDeserialize("layout_jobs.ndjson")\nTJobAt(i) == Job
 BASE_STYLE = {"ws": " ", "ows": "", "eol": "\n", "ind": "  ", "blank": 0, "cmt": 0, "trail": "", "multi": False, "lead": "", "fin": "\n"}
 STYLE_SPACE = {"ws": [" ", "\t", "   "], "ows": ["", " "], "eol": ["\n", "\r\n"], "ind": ["  ", "\t", "", "      "], "blank": [0, 1, 2], "cmt": [0, 1],
                "trail": ["", " # t", "   ", " # see #12 # more", "\t", " \t "], "multi": [False, True], "lead": ["", "\n", "  \n\n", "# hdr\n", "  # a\n  # b\n"], "fin": ["", "\n", "\n\n"]}
-NVIOL = 13
+NVIOL = 14
 
 
 def layout_jobs(tier, want_valid, want_invalid):
@@ -244,6 +244,9 @@ def layout_jobs(tier, want_valid, want_invalid):
         for k in range(6):                                            # every keyword the grammar admits as identifier, in every identifier position
             for role in range(30):
                 jobs.append({"id": "L%d" % len(jobs), "doc": 0, "kw": [k, role], "viol": 0, "vsite": 0, "style": dict(BASE_STYLE), "ov": []})
+        for i in range(16):                                           # names that split in two ways between type and relation (dotted / slashed / dashed / underscored)
+            jobs.append({"id": "L%d" % len(jobs), "doc": 0, "dot": i, "viol": 0, "vsite": 0, "style": dict(BASE_STYLE), "ov": []})
+            jobs.append({"id": "L%d" % len(jobs), "doc": 0, "dot": i, "viol": 0, "vsite": 0, "style": rstyle(), "ov": []})
         for d in range(27):                                           # full-line comments in column 0 at every line break, whatever the depth
             job(d, style=dict(BASE_STYLE, cmt=1, cind=0))
             job(d, style=dict(BASE_STYLE, cmt=1, cind=0, multi=True, ind="\t"))
@@ -271,7 +274,7 @@ def layout_jobs(tier, want_valid, want_invalid):
     return jobs
 
 
-def run_layouts(chk, binary, sc, tier, want_valid, want_invalid, chain):
+def run_layouts(chk, binary, sc, tier, want_valid, want_invalid, chain, nonascii=False):
     jobs = layout_jobs(tier, want_valid, want_invalid)
     jf = sc.path("layout_jobs.ndjson")
     write_ndjson(jf, jobs)
@@ -279,6 +282,15 @@ def run_layouts(chk, binary, sc, tier, want_valid, want_invalid, chain):
     recs = {r["id"]: r for r in res.records}
     if len(recs) != len(jobs):
         raise Infra("TLC rendered %d of %d layout jobs\n%s" % (len(recs), len(jobs), res.tail[-1500:]))
+    if nonascii:
+        # every second document that has the string literal "a b" in a condition carries characters of 2 and 3 UTF-8 bytes there instead
+        # (same number of characters: positions, which count characters, are unchanged; byte offsets are not)
+        for k, r in enumerate(recs.values()):
+            if k % 2 == 0 and '"a b"' in r["text"]:
+                r["text"] = r["text"].replace('"a b"', '"\u00fc\u2013\u65e5"')
+                for cnd in (r.get("m") or {}).get("conds") or []:
+                    cnd["expr"] = cnd["expr"].replace('"a b"', '"\u00fc\u2013\u65e5"')
+                chk.add("documents_with_multibyte_characters")
     inp, out = sc.path("lay.in.ndjson"), sc.path("lay.out.ndjson")
     write_ndjson(inp, [{"id": r["id"], "text": r["text"], "modular": r["modular"]} for r in recs.values()])
     run_harness(binary, ["dsl-parse", "-in", inp, "-out", out] + (["-chain"] if chain else []))
@@ -379,7 +391,7 @@ def layout_docs(jobs, recs):
         r = recs[j["id"]]
         src = ["none", 0, 0]
         if r["valid"]:
-            src = ["kw", j["kw"][0], j["kw"][1]] if "kw" in j else ["wide", 0, 0] if "wide" in j else ["doc", j["doc"], 0]
+            src = ["kw", j["kw"][0], j["kw"][1]] if "kw" in j else ["wide", 0, 0] if "wide" in j else ["dot", j["dot"], 0] if "dot" in j else ["doc", j["doc"], 0]
         if "wide" in j or j["style"].get("pad"):
             continue        # (100 KiB lines: nothing new for the listener, slow to ship through JSON)
         docs.append({"id": r["id"], "text": r["text"], "modular": r["modular"], "src": src})
@@ -509,7 +521,7 @@ def run_c03(chk, binary, sc, tier):
 
 
 def run_c01(chk, binary, sc, tier):
-    jobs, recs, obs = run_layouts(chk, binary, sc, tier, True, False, True)
+    jobs, recs, obs = run_layouts(chk, binary, sc, tier, True, False, True, nonascii=True)
     n = 0
     for j in jobs:
         r, o = recs[j["id"]], obs[j["id"]]
